@@ -12,7 +12,8 @@ RULE = ("subcommands x flag combinations {run, run --check, run --again -j, wher
         "{root, package dir, nested package, directory without COND, cond-out, inside a task output, sibling package} x project states (fresh, with failed leftovers, several versions); "
         "non-trivial = command touches cond-out or prints a location; distinct = (state, command, cwd)")
 
-CWDS = ["", "a", "a/b", "docs/deep", "cond-out", "cond-out/a/c1.task", "c-d"]
+CWDS = ["", "a", "a/b", "docs/deep", "cond-out", "cond-out/a/c1.task", "c-d", "vendor/lib"]
+GIT_COMMANDS = [["run", "//:g", "--this-commit"], ["run", "//a/b:e3", "--at-least", "HEAD"], ["run", "//:dd", "--at-least", "HEAD~1"], ["where", "//a:e2"], ["run", "//:g"]]
 T0 = 1_800_000_000
 
 COMMANDS = [
@@ -48,8 +49,26 @@ def eval_case(case):
         R[k] = R.get(k, 0) + n
 
     with common.Scratch("cv17") as sc:
-        pr = statecheck.std_project(sc.root)
+        pr = statecheck.std_project(sc.root, disable_git=not case.get("git"))
         os.makedirs(os.path.join(pr.root, "docs", "deep"), exist_ok=True)
+        os.makedirs(os.path.join(pr.root, "vendor", "lib"), exist_ok=True)
+        if case.get("outer_config"):
+            # the project lives inside another Conductor project: the NEAREST cond_config.toml is the root
+            open(os.path.join(sc.root, "cond_config.toml"), "w").write("disable_git = true\n")
+            open(os.path.join(sc.root, "COND"), "w").write("run_command(name='outer', run='true')\n")
+        if case.get("git"):
+            open(os.path.join(pr.root, ".gitignore"), "w").write("cond-out\nvendor\n")
+            open(os.path.join(pr.root, "src.txt"), "w").write("0\n")
+            realrun.git(pr.root, "init", "-q", "-b", "main")
+            realrun.git(pr.root, "add", "-A")
+            realrun.git(pr.root, "commit", "-q", "-m", "c0")
+            realrun.git(pr.root, "commit", "-q", "--allow-empty", "-m", "c1")
+            # a vendored checkout with its own repository below the project root
+            vl = os.path.join(pr.root, "vendor", "lib")
+            open(os.path.join(vl, "README"), "w").write("vendored\n")
+            realrun.git(vl, "init", "-q", "-b", "main")
+            realrun.git(vl, "add", "-A")
+            realrun.git(vl, "commit", "-q", "-m", "vendored c0")
         hist = statecheck.run_history(pr, rng, case["nruns"]) if case["nruns"] else []
         # c1's output must exist so that "inside a task output" is a valid cwd
         pr.cond(["run", "//a:c1"], timeout=60)
@@ -72,6 +91,9 @@ def eval_case(case):
         for cwd in case["cwds"]:
             shutil.rmtree(pr.root)
             shutil.copytree(pristine, pr.root, symlinks=True)
+            if case.get("git"):
+                realrun.git(pr.root, "update-index", "-q", "--refresh", check=False)
+                realrun.git(os.path.join(pr.root, "vendor", "lib"), "update-index", "-q", "--refresh", check=False)
             archdir = os.path.join(sc.root, "adir")
             shutil.rmtree(archdir, ignore_errors=True)
             os.makedirs(archdir)
@@ -85,7 +107,7 @@ def eval_case(case):
             r = pr.cond(argv, cwd=cwd, timeout=120, clock=[T0])
             evs = pr.events(new_only=True)
             snap = statecheck.full_snapshot(pr.root) if os.path.isdir(pr.root) else {}
-            snap = {k: v for k, v in snap.items() if "version_index.sqlite" not in k and not (k.startswith("cond-out/cond-archive+") )}
+            snap = {k: v for k, v in snap.items() if "version_index.sqlite" not in k and not (k.startswith("cond-out/cond-archive+")) and not (k == ".git" or k.startswith(".git/") or "/.git/" in k or k.endswith("/.git"))}
             rows = pr.rows()
             default_archives = len([k for k in os.listdir(os.path.join(pr.root, "cond-out")) if k.startswith("cond-archive+")]) if os.path.isdir(os.path.join(pr.root, "cond-out")) else 0
             obs = {"exit": r.code, "snapshot": snap, "rows": rows, "locations": norm_paths(r.out, pr.root, cwd_abs), "started": sorted(e["task"] for e in evs if e["kind"] == "start"),
@@ -140,7 +162,10 @@ def main(tier, n=None):
                 cw = [""] + rng.sample(CWDS[1:], 4)
             else:
                 cw = list(CWDS)
-            cases.append({"seed": rng.randrange(1 << 30), "cmd": cmd, "cwds": cw, "nruns": rng.choice([0, 1, 2, 3]), "leftovers": rng.random() < 0.6})
+            cases.append({"seed": rng.randrange(1 << 30), "cmd": cmd, "cwds": cw, "nruns": rng.choice([0, 1, 2, 3]), "leftovers": rng.random() < 0.6, "outer_config": rng.random() < 0.5})
+        for cmd in GIT_COMMANDS:
+            cw = [""] + (rng.sample(CWDS[1:-1], 3) + ["vendor/lib"] if tier == "quick" else CWDS[1:])
+            cases.append({"seed": rng.randrange(1 << 30), "cmd": cmd, "cwds": cw, "nruns": rng.choice([1, 2]), "leftovers": False, "git": True, "outer_config": rng.random() < 0.3})
     if n:
         cases = cases[:n]
     cli.warm()
